@@ -65,7 +65,7 @@ def defaultScanIdSource (md : Dict) : Option Int :=
 /-- would `event_model.compose_run(uid=..., metadata=md)` produce a valid RunStart? -/
 def composes (md : Dict) : Bool :=
   md.all fun p =>
-    p.1 != "uid" && p.1 != "time" && !(p.1.contains '.') && !(p.1.contains '/') &&
+    p.1 != "uid" && p.1 != "time" && !(p.1.toList.any (fun c => c == '.' || c == '/')) &&
     (match p.1, p.2 with
      | "scan_id", .int _ => true
      | "scan_id", _ => false
@@ -78,7 +78,7 @@ def composes (md : Dict) : Bool :=
      | "data_session", .str _ => true
      | "data_session", _ => false
      | "sample", .str _ => true
-     | "sample", .other j => j.startsWith "{"
+     | "sample", .other j => j.toList.head? == some '{' 
      | "sample", _ => false
      | _, _ => true)
 
